@@ -92,7 +92,8 @@ SWITCHED = ('switch', 'switch_bind', 'switch_requires', 'switch_requires_inline'
 def required_cells(tier):
     return (['kind:' + k for k in KINDS] + ['history:same-object-twice', 'history:switch-AB', 'history:switch-BA', 'history:missing-submodule-then-package',
             'history:ordered-pair', 'history:random', 'history:fresh-object', 'module-dict-checks', 'baseline-children',
-            'session-options:none', 'session-options:given', 'mode:native', 'mode:pytest'])
+            'session-options:none', 'session-options:given', 'mode:native', 'mode:pytest'] +
+            ['history:' + h for h, _ in PATCH_HISTORIES])
 
 
 REQ_PACKAGES = ['json', 'email', 'xml', 'logging', 'http', 'urllib', 'concurrent', 'importlib', 'unittest', 'collections',
@@ -341,15 +342,95 @@ def check_module(ctx, idx, seed):
         sys.modules.pop(modname, None)
 
 
+PATCH_MODULE = '''T = []
+LIMIT = 1
+NAMES = []
+def label():
+    return 'orig'
+def scale(x):
+    return x * LIMIT
+def reader():
+    """
+    Example:
+        >>> T.append("reader")
+        >>> print(LIMIT, scale(2), label(), NAMES)
+    """
+def patcher():
+    """
+    Example:
+        >>> import sys
+        >>> T.append("patcher")
+        >>> me = sys.modules[__name__]
+        >>> me.LIMIT = me.LIMIT * 10
+        >>> me.label = lambda: 'patched'
+        >>> me.NAMES.append('p')
+    """
+'''
+PATCH_HISTORIES = [
+    ('patched-between-runs-of-one-object', [('reader', False), ('patcher', False), ('reader', False)]),
+    ('patched-then-fresh-object', [('reader', False), ('patcher', False), ('reader', True)]),
+    ('patched-first', [('patcher', False), ('reader', False), ('patcher', False), ('reader', False)]),
+]
+
+
+def probe_module_patch(ctx):
+    """the module under test is changed on purpose between two runs (through the module object, the one documented way
+    for a doctest to do that): what a doctest then finds under the module's names is the module as it is now, the same
+    for an object that already ran and for a freshly parsed one"""
+    modname = 'ip_%d_%d_zz' % (ctx.seed, ctx.shard)
+    path = os.path.join(ctx.tmp, modname + '.py')
+    with open(path, 'w') as f:
+        f.write(PATCH_MODULE)
+    try:
+        for hname, hist in PATCH_HISTORIES:
+            for mode in ('native', 'pytest'):
+                sys.modules.pop(modname, None)
+                objs = {e.callname: e for e in load(path)}
+                ok = True
+                for step, (name, fresh) in enumerate(hist):
+                    e = objs[name]
+                    if fresh:
+                        e = [x for x in load(path) if x.callname == name][0]
+                    ob = observe(e, 'B', mode)
+                    ctx.evaluation()
+                    ctx.event('history_runs_compared')
+                    mod = sys.modules[modname]
+                    if name == 'reader':
+                        exp = '%s %s %s %s\n' % (mod.LIMIT, 2 * mod.LIMIT, mod.label(), mod.NAMES)
+                        got = ''.join(ob[1] or [])
+                        if ob[0] != 'passed' or got != exp:
+                            ctx.violation('history-dependent', 'the module under test was changed through its module object '
+                                          'between runs (history %r, mode %s): the reader must print the module as it is now '
+                                          '%r, it printed %r (outcome %s)\n--- module ---\n%s' % (
+                                              hist[:step + 1], mode, exp, got, ob[0], PATCH_MODULE),
+                                          {'probe': 'module-patch'}, history=hist[:step + 1])
+                            ok = False
+                            break
+                if ok:
+                    ctx.cell('history:' + hname)
+                    ctx.nontrivial((hname, mode))
+    finally:
+        try:
+            os.unlink(path)
+        except OSError:
+            pass
+        sys.modules.pop(modname, None)
+
+
 def run_shard(ctx):
     warnings.simplefilter('ignore')
     n = ctx.pick(64, 800)
     for idx in ctx.my_indices(n):
         check_module(ctx, idx, ctx.case_seed(idx))
+    if ctx.shard == 6 % ctx.nshards:
+        probe_module_patch(ctx)
 
 
 def replay(case, ctx):
     warnings.simplefilter('ignore')
+    if case.get('probe') == 'module-patch':
+        probe_module_patch(ctx)
+        return
     check_module(ctx, case['index'], case['case_seed'])
 
 
